@@ -136,6 +136,19 @@ func workloadDocs(w *World, wl *Workload) []Doc {
 	if wl.Kind != "Pod" && !isOwned(wl.Kind) && len(wl.ObjLabels) > 0 {
 		om.Labels = wl.ObjLabels
 	}
+	if wl.Kind != "Pod" && !isOwned(wl.Kind) && wl.ExportedOwner {
+		// the controller object as `kubectl get rs,job -o yaml` prints it: with a controller ownerReference to ITS owner
+		// (a Deployment, a CronJob, a custom kind) which is not part of the input - the object is the workload all the same
+		yes := true
+		ok, oapi := "Deployment", "apps/v1"
+		switch wl.Kind {
+		case "Job":
+			ok, oapi = "CronJob", "batch/v1"
+		case "StatefulSet", "DaemonSet", "Deployment", "CronJob", "ReplicationController":
+			ok, oapi = "Rollout", "argoproj.io/v1alpha1"
+		}
+		om.OwnerReferences = []metav1.OwnerReference{{APIVersion: oapi, Kind: ok, Name: wl.Name + "-parent", UID: "0000-parent", Controller: &yes, BlockOwnerDeletion: &yes}}
+	}
 	tmpl := corev1.PodTemplateSpec{ObjectMeta: metav1.ObjectMeta{Labels: wl.Labels}, Spec: podSpec(wl)}
 	var reps *int32
 	if wl.Replicas >= 0 {
